@@ -70,10 +70,8 @@ int main(int argc, char** argv)
         Cell initial_value;
         initial_value.set_raw(200);
         // (given as an lvalue or as an rvalue: the constructor must build BOTH copies from it)
-        std::optional<lr_guarded<Cell, vrf::mutex_t>> lr_storage;
-        if (r % 2) lr_storage.emplace(std::move(initial_value));
-        else lr_storage.emplace(initial_value);
-        auto& lr = *lr_storage;
+        vrf::Hostile<lr_guarded<Cell, vrf::mutex_t>> lr_storage(static_cast<uint64_t>(r) / 2);  // dirty storage: see m60b
+        auto& lr = (r % 2) ? lr_storage.emplace(std::move(initial_value)) : lr_storage.emplace(initial_value);
         auto strip_initial = [](std::vector<uint32_t>& v, const char* where) {
             if (v.empty() || v[0] != 200) vrf::violation("oracle:initial_value_missing", std::string("{\"where\":\"") + where + "\",\"log\":" + vrf::jnums(v) + "}");
             v.erase(v.begin());
